@@ -427,7 +427,10 @@ RingPoll(tmo, ch, blockOp, blockKind) ==
                 /\ IF ~empty \/ quick
                    THEN \* ... and the call returns at once.
                         /\ blockOp = 0 /\ blockKind = ""
-                        /\ LET woke == consumed > 0 \/ ~empty      \* enter returned Ok(n), not ETIME
+                        \* Parked futures are woken whenever the system call returns, also when it
+                        \* timed out (before /repo commit 77d0332 the code woke them only after Ok(n);
+                        \* this model had copied that, which hid the defect ParkMT.tla then exposed).
+                        /\ LET woke == TRUE
                                pr == Process(fl[1], <<op, IF woke THEN SeqToSet(blocked) ELSE {}, {}, c1[6], bring>>, vbuf)
                            IN /\ op' = pr[1] /\ res' = pr[4] /\ bring' = pr[5] /\ vbuf' = vbuf
                               /\ blocked' = IF woke THEN <<>> ELSE blocked
